@@ -10,7 +10,7 @@ use crate::sut::*;
 use crate::worker::*;
 use serde_json::{json, Value};
 
-pub const FAULTS: [&str; 16] = [
+pub const FAULTS: [&str; 20] = [
     "absent",
     "pass",
     "slow_pass",
@@ -27,6 +27,11 @@ pub const FAULTS: [&str; 16] = [
     "partial_out_fail",
     "partial_out_term",
     "stub_ok_no_read",
+    // a `rustfmt` is found on the PATH but cannot be started
+    "spawn_noexec",
+    "spawn_isdir",
+    "spawn_badinterp",
+    "spawn_garbage",
 ];
 
 pub const WATCHDOG_S: f64 = 20.0;
@@ -53,7 +58,15 @@ pub struct Env {
 }
 
 fn child_env(fault: &str, env: &Env) -> Vec<(String, String)> {
-    let path = if fault == "absent" { format!("{VERIF_DIR}/stubs/empty") } else { format!("{VERIF_DIR}/stubs/fmt") };
+    let path = match fault {
+        "absent" => format!("{VERIF_DIR}/stubs/empty"),
+        // mode 0644 file / directory / script with a missing interpreter / executable that is no program
+        "spawn_noexec" => format!("{VERIF_DIR}/stubs/noexec"),
+        "spawn_isdir" => format!("{VERIF_DIR}/stubs/isdir"),
+        "spawn_badinterp" => format!("{VERIF_DIR}/stubs/badinterp"),
+        "spawn_garbage" => format!("{VERIF_DIR}/stubs/garbage"),
+        _ => format!("{VERIF_DIR}/stubs/fmt"),
+    };
     let mut v = vec![("PATH".to_string(), path), ("VERIF_FMT_MODE".to_string(), fault.to_string())];
     if let Some(r) = &env.real {
         v.push(("VERIF_REAL_RUSTFMT".to_string(), r.clone()));
